@@ -160,27 +160,39 @@ func (u *PsipURI) AdjustOffs(newpos PField) bool {
 	last := int(offs)
 	u.Scheme.Offs = offs
 	if u.User.Offs != 0 {
-		last = int(offs) + int(u.User.Offs-start) + int(u.User.Len)
+		if e := int(offs) + int(u.User.Offs-start) + int(u.User.Len); e > last {
+			last = e
+		}
 		u.User.Offs = u.User.Offs - start + offs
 	}
 	if u.Pass.Offs != 0 {
-		last = int(offs) + int(u.Pass.Offs-start) + int(u.Pass.Len)
+		if e := int(offs) + int(u.Pass.Offs-start) + int(u.Pass.Len); e > last {
+			last = e
+		}
 		u.Pass.Offs = u.Pass.Offs - start + offs
 	}
 	if u.Host.Offs != 0 {
-		last = int(offs) + int(u.Host.Offs-start) + int(u.Host.Len)
+		if e := int(offs) + int(u.Host.Offs-start) + int(u.Host.Len); e > last {
+			last = e
+		}
 		u.Host.Offs = u.Host.Offs - start + offs
 	}
 	if u.Port.Offs != 0 {
-		last = int(offs) + int(u.Port.Offs-start) + int(u.Port.Len)
+		if e := int(offs) + int(u.Port.Offs-start) + int(u.Port.Len); e > last {
+			last = e
+		}
 		u.Port.Offs = u.Port.Offs - start + offs
 	}
 	if u.Params.Offs != 0 {
-		last = int(offs) + int(u.Params.Offs-start) + int(u.Params.Len)
+		if e := int(offs) + int(u.Params.Offs-start) + int(u.Params.Len); e > last {
+			last = e
+		}
 		u.Params.Offs = u.Params.Offs - start + offs
 	}
 	if u.Headers.Offs != 0 {
-		last = int(offs) + int(u.Headers.Offs-start) + int(u.Headers.Len)
+		if e := int(offs) + int(u.Headers.Offs-start) + int(u.Headers.Len); e > last {
+			last = e
+		}
 		u.Headers.Offs = u.Headers.Offs - start + offs
 	}
 	if last > end {
